@@ -288,5 +288,5 @@ def check(ctx):
             ctx.guard('R3', fsite(d), r3)
     # a reloaded checkpoint continues with the state that was written: the reader stores the values
     # it read, unmodified (shared with C05)
-    share(ctx, 'C05', 'R7/C05.', ['vii.'])
+    share(ctx, 'C05', 'R7/C05.', ['vii.', 'i.sequence', 'i.loop_counts'])
 
